@@ -74,6 +74,13 @@ def gen_hist(rng, maxops=8):
         for k in range(1, rng.choice([2, 3, 4])):
             fs0['#%s.%d#' % (b, k)] = 'bk%d' % k
     ops = []
+    links = []
+    if fs0 and rng.random() < 0.2:
+        # a pre-existing name that is a symbolic link to a file kept elsewhere (plain names only)
+        plain = [n for n in fs0 if not n.startswith('#')]
+        if plain:
+            links.append(rng.choice(plain))
+    gen_hist.links = links
     for _ in range(rng.randint(1, maxops)):
         r = rng.random()
         if r < 0.06:
@@ -108,9 +115,12 @@ def generate(rng, tier):
         cases.append({'kind': 'hist', 'fs0': fs0, 'ops': ops, 'fin': [rng.choice(['write', 'write', 'close'])], 'tmp': rng.choice(['own', 'system'])})
     for i in range(n):
         fs0, ops = gen_hist(rng, 8 if tier == 'quick' else 12)
+        links = list(gen_hist.links)
+        if links and ops and ops[0][0] == 'open' and rng.random() < 0.7:
+            ops[0][1] = links[0]                       # make sure the link is written to
         tmpdir_mode = rng.choice(['own', 'own', 'system'])
-        cases.append({'kind': 'hist', 'fs0': fs0, 'ops': ops, 'fin': ['write'], 'tmp': tmpdir_mode})
-        cases.append({'kind': 'hist', 'fs0': fs0, 'ops': ops, 'fin': ['close'], 'tmp': tmpdir_mode})
+        cases.append({'kind': 'hist', 'fs0': fs0, 'ops': ops, 'fin': ['write'], 'tmp': tmpdir_mode, 'links': links})
+        cases.append({'kind': 'hist', 'fs0': fs0, 'ops': ops, 'fin': ['close'], 'tmp': tmpdir_mode, 'links': links})
         # every crash point: the number of calls is not known before running; ask for indices 0..7
         # (indices beyond the last call give the completed state) with and without a partial transfer
         for k in range(0, 8 if tier == 'quick' else 14):
@@ -276,7 +286,14 @@ def run_hist(inp):
     w._tmpdir = tmpd if inp['tmp'] == 'own' else None
     all_tmps = []
     try:
+        elsewhere = os.path.join(root, 'elsewhere')
+        os.makedirs(elsewhere)
         for name, content in inp['fs0'].items():
+            if name in inp.get('links', []):
+                with open(os.path.join(elsewhere, name), 'wb') as f:
+                    f.write(content.encode('latin-1'))
+                os.symlink(os.path.join('..', 'elsewhere', name), os.path.join(userdir, name))
+                continue
             with open(os.path.join(userdir, name), 'wb') as f:
                 f.write(content.encode('latin-1'))
         outcomes = []
@@ -328,8 +345,21 @@ def run_hist(inp):
             ncalls = _crash_write(fw, w, fin[1], fin[2])
         after = _snapshot(userdir)
         left = sum(1 for t in set(all_tmps) if os.path.exists(t)) if fin[0] != 'crash' else 0
+        # a file kept elsewhere that a name in the directory merely links to was never opened for writing: unless something
+        # is appended through the link it must be what it was, and nothing new may appear next to it
+        outside = None
+        for name in inp.get('links', []):
+            appended = any(op[0] == 'open' and op[1] == name and 'a' in op[2] for op in inp['ops'])
+            try:
+                with open(os.path.join(elsewhere, name), 'rb') as f:
+                    now = f.read().decode('latin-1')
+            except FileNotFoundError:
+                now = None
+            if (not appended and now != inp['fs0'][name]) or sorted(os.listdir(elsewhere)) != [name]:
+                outside = 'the file %r kept elsewhere, to which the destination name is only a symbolic link, held %r and now holds %r; its directory lists %r' % (
+                    name, inp['fs0'][name], now, sorted(os.listdir(elsewhere)))
         return {'outcomes': outcomes, 'before': before, 'dests': dests, 'after': after, 'tmps_left': left,
-                'ncalls': ncalls}
+                'ncalls': ncalls, 'outside': outside}
     finally:
         try:
             w.close()
@@ -478,6 +508,10 @@ def run_cli(inp):
                 'intact': intact, 'expected_present': expected, 'tail': p.stdout[-300:] if p.returncode not in (0, 2) else ''}
     finally:
         shutil.rmtree(d, ignore_errors=True)
+
+
+def py_prop(inp, out):
+    return out.get('outside') if isinstance(out, dict) else None
 
 
 def run_impl(inp):
